@@ -128,22 +128,38 @@ Qed.
 
 (* ---------- the handlers ---------- *)
 
-Ltac case_dispatch i :=
-  let o := fresh "o" in let ran := fresh "ran" in let E := fresh "Ed" in
-  destruct (dispatch (i_roots i) (i_cmd i)) as [o ran] eqn:E.
+(* projections of the helper results *)
+Lemma ran_consume i ran m : r_ran (consume i ran m) = ran.
+Proof. unfold consume, nothing. destruct (i_fam i), (i_signed i), (i_off i =? 0); reflexivity. Qed.
+Lemma ran_modify i ran : r_ran (modify_command i ran) = ran.
+Proof. unfold modify_command. destruct (i_signed i && i_fka i); reflexivity. Qed.
+Lemma ran_forward i ran : r_ran (forward_command i ran) = ran.
+Proof.
+  unfold forward_command. destruct (beq_bytes (i_cmd i) (i_line i)); [|apply ran_modify].
+  destruct (i_fam i); reflexivity.
+Qed.
+Lemma ran_keyed_unknown i ran : r_ran (keyed_rewrite_unknown_branch i ran) = ran.
+Proof. unfold keyed_rewrite_unknown_branch. destruct (strict_key i && i_fka i); reflexivity. Qed.
+Lemma ran_keyed_forward fixed i ran : r_ran (keyed_rewrite_forward_branch fixed i ran) = ran.
+Proof. unfold keyed_rewrite_forward_branch. destruct (strict_key i), (i_fka i), fixed; reflexivity. Qed.
 
 (* the proxy runs an executor exactly when the event neither denied nor forwarded the command
    and the dispatcher resolves it to an executor (both models) *)
 Lemma ran_is_should_run fixed i : r_ran (decide fixed i) = should_run i.
 Proof.
-  unfold decide, should_run, decide_legacy, decide_keyed, decide_session, consume, forward_command,
-    modify_command, keyed_rewrite_forward_branch, keyed_rewrite_unknown_branch, nothing.
-  destruct (i_fam i), (i_denied i), (i_forward i); cbn [orb];
-    repeat match goal with
-    | |- context [dispatch ?a ?b] => destruct (dispatch a b) as [o ran]; cbn [snd fst]
-    | |- context [if ?b then _ else _] => destruct b
-    | |- context [match ?o with Ran => _ | _ => _ end] => destruct o
-    end; reflexivity.
+  unfold decide, should_run. destruct (i_fam i).
+  - unfold decide_legacy, nothing. destruct (i_denied i), (i_forward i); cbn [orb]; try reflexivity.
+    destruct (dispatch (i_roots i) (i_cmd i)) as [o ran]. destruct (proxy_handles o); reflexivity.
+  - unfold decide_keyed, nothing. destruct (i_denied i); [reflexivity|]. destruct (i_forward i); cbn [orb].
+    + destruct (i_signed i && beq_bytes (i_cmd i) (i_line i)); [reflexivity|apply ran_keyed_forward].
+    + destruct (dispatch (i_roots i) (i_cmd i)) as [o ran]. destruct (proxy_handles o); [reflexivity|].
+      destruct (beq_bytes (i_cmd i) (i_line i)); [reflexivity|apply ran_keyed_unknown].
+  - unfold decide_session. destruct (i_denied i); [apply ran_consume|]. destruct (i_forward i); [apply ran_forward|].
+    cbn [orb]. destruct (dispatch (i_roots i) (i_cmd i)) as [o ran].
+    destruct o; cbn [snd]; try apply ran_consume; try apply ran_forward; reflexivity.
+  - unfold decide_session. destruct (i_denied i); [apply ran_consume|]. destruct (i_forward i); [apply ran_forward|].
+    cbn [orb]. destruct (dispatch (i_roots i) (i_cmd i)) as [o ran].
+    destruct o; cbn [snd]; try apply ran_consume; try apply ran_forward; reflexivity.
 Qed.
 
 Lemma C22_iff_lemma fixed i id :
@@ -155,17 +171,15 @@ Proof.
   all: intros (H1 & H2 & H3); try discriminate; assumption.
 Qed.
 
-Ltac crush_decide :=
-  unfold decide, decide_legacy, decide_keyed, decide_session, consume, forward_command,
-    modify_command, keyed_rewrite_forward_branch, keyed_rewrite_unknown_branch, nothing, rebuilt, strict_key.
+Lemma consume_no_cmd i ran m : cmd_packets (r_backend (consume i ran m)) = [].
+Proof. unfold consume, nothing. destruct (i_fam i), (i_signed i), (i_off i =? 0); reflexivity. Qed.
 
 (* a denied command never reaches the backend (both models) *)
 Lemma denied_never_forwarded fixed i :
   i_denied i = true -> cmd_packets (r_backend (decide fixed i)) = [].
 Proof.
-  intros Hd. crush_decide. rewrite Hd.
-  destruct (i_fam i); cbn; try reflexivity;
-    repeat match goal with |- context [if ?b then _ else _] => destruct b end; reflexivity.
+  intros Hd. unfold decide, decide_legacy, decide_keyed, decide_session. rewrite Hd.
+  destruct (i_fam i); try reflexivity; apply consume_no_cmd.
 Qed.
 
 (* a command the proxy handled itself is not forwarded as well (both models) *)
@@ -175,29 +189,119 @@ Proof.
   unfold kept_by_proxy. intros Hk.
   apply andb_true_iff in Hk. destruct Hk as [Hk Hh]. apply andb_true_iff in Hk. destruct Hk as [Hd Hf].
   apply negb_true_iff in Hd, Hf.
-  crush_decide. rewrite Hd, Hf.
+  unfold decide, decide_legacy, decide_keyed, decide_session. rewrite Hd, Hf.
   destruct (dispatch (i_roots i) (i_cmd i)) as [o ran]. cbn [fst] in Hh.
-  destruct (i_fam i), o; cbn in Hh; try discriminate; cbn;
-    repeat match goal with |- context [if ?b then _ else _] => destruct b end; reflexivity.
+  destruct (i_fam i); try (rewrite Hh; reflexivity);
+    destruct o; cbn in Hh; try discriminate; try apply consume_no_cmd; reflexivity.
 Qed.
+
+Ltac crush_decide :=
+  unfold decide, decide_legacy, decide_keyed, decide_session, consume, forward_command,
+    modify_command, keyed_rewrite_forward_branch, keyed_rewrite_unknown_branch, nothing, rebuilt, strict_key.
+
+Ltac split_ifs :=
+  repeat match goal with
+    | |- context [dispatch ?a ?b] => destruct (dispatch a b) as [o ran]; cbn
+    | |- context [match ?o with Ran => _ | _ => _ end] => destruct o; cbn
+    | |- context [if ?b then _ else _] => destruct b; cbn
+    end.
 
 (* the player is only ever disconnected over a signed command under ForceKeyAuthentication *)
 Lemma disc_only_signed_fka fixed i :
   r_disc (decide fixed i) = true -> i_signed i = true /\ i_fka i = true.
 Proof.
-  crush_decide.
-  destruct (i_fam i), (i_denied i), (i_forward i), (i_signed i), (i_fka i); cbn;
-    repeat match goal with
-    | |- context [dispatch ?a ?b] => destruct (dispatch a b) as [o ran]
-    | |- context [match ?o with Ran => _ | _ => _ end] => destruct o; cbn
-    | |- context [if ?b then _ else _] => destruct b; cbn
-    end; intros; try discriminate; auto.
+  intros H. destruct (i_signed i) eqn:Es, (i_fka i) eqn:Ef; [auto|exfalso..]; revert H;
+  crush_decide; rewrite ?Es, ?Ef;
+  destruct (i_fam i), (i_denied i), (i_forward i), (i_keyrev i =? 0), (i_keyrev i =? 2); cbn;
+  split_ifs; cbn; intros; discriminate.
 Qed.
 
-(* otherwise the backend receives it exactly once *)
+(* a disconnect comes with nothing forwarded *)
+Definition disc_quiet (r : result) : Prop := r_disc r = true -> cmd_packets (r_backend r) = [].
+
+Lemma consume_quiet i ran m : disc_quiet (consume i ran m).
+Proof.
+  unfold disc_quiet, consume, nothing. destruct (i_fam i); try (cbn; discriminate);
+  destruct (i_signed i); cbn; auto; destruct (i_off i =? 0); cbn; discriminate.
+Qed.
+Lemma modify_quiet i ran : disc_quiet (modify_command i ran).
+Proof. unfold disc_quiet, modify_command. destruct (i_signed i && i_fka i); cbn; [auto|discriminate]. Qed.
+Lemma forward_quiet i ran : disc_quiet (forward_command i ran).
+Proof.
+  unfold forward_command. destruct (beq_bytes (i_cmd i) (i_line i)); [|apply modify_quiet].
+  unfold disc_quiet. destruct (i_fam i); cbn; discriminate.
+Qed.
+Lemma keyed_unknown_quiet i ran : disc_quiet (keyed_rewrite_unknown_branch i ran).
+Proof. unfold disc_quiet, keyed_rewrite_unknown_branch. destruct (strict_key i && i_fka i); cbn; [auto|discriminate]. Qed.
+Lemma keyed_forward_quiet fixed i ran : disc_quiet (keyed_rewrite_forward_branch fixed i ran).
+Proof.
+  unfold disc_quiet, keyed_rewrite_forward_branch.
+  destruct (strict_key i), (i_fka i), fixed; cbn; auto; discriminate.
+Qed.
+
+Lemma disc_nothing fixed i : disc_quiet (decide fixed i).
+Proof.
+  unfold decide. destruct (i_fam i).
+  - unfold disc_quiet, decide_legacy, nothing. destruct (i_denied i), (i_forward i); cbn; try discriminate.
+    destruct (dispatch (i_roots i) (i_cmd i)) as [o ran]. destruct (proxy_handles o); cbn; discriminate.
+  - unfold decide_keyed, nothing. destruct (i_denied i); [unfold disc_quiet; cbn; auto|].
+    destruct (i_forward i).
+    + destruct (i_signed i && beq_bytes (i_cmd i) (i_line i)); [unfold disc_quiet; cbn; discriminate|apply keyed_forward_quiet].
+    + destruct (dispatch (i_roots i) (i_cmd i)) as [o ran]. destruct (proxy_handles o); [unfold disc_quiet; cbn; discriminate|].
+      destruct (beq_bytes (i_cmd i) (i_line i)); [unfold disc_quiet; cbn; discriminate|apply keyed_unknown_quiet].
+  - unfold decide_session. destruct (i_denied i); [apply consume_quiet|].
+    destruct (i_forward i); [apply forward_quiet|].
+    destruct (dispatch (i_roots i) (i_cmd i)) as [o ran].
+    destruct o; try apply consume_quiet; try apply forward_quiet. unfold disc_quiet, nothing; cbn; discriminate.
+  - unfold decide_session. destruct (i_denied i); [apply consume_quiet|].
+    destruct (i_forward i); [apply forward_quiet|].
+    destruct (dispatch (i_roots i) (i_cmd i)) as [o ran].
+    destruct o; try apply consume_quiet; try apply forward_quiet. unfold disc_quiet, nothing; cbn; discriminate.
+Qed.
+
+(* otherwise the backend receives it exactly once, with the event's command line - except that
+   the legacy handler forwards the client's original message when the (possibly rewritten)
+   command is unknown to the proxy *)
+Definition once_cmd (i : input) (r : result) : Prop := cmd_packets (r_backend r) = [i_cmd i].
+
+Lemma rebuilt_cmd i c : cmd_packets [rebuilt i c] = [c].
+Proof. unfold rebuilt. destruct (i_fam i), (i_p1205 i); reflexivity. Qed.
+
+Lemma modify_once i ran : r_disc (modify_command i ran) = false -> once_cmd i (modify_command i ran).
+Proof.
+  unfold modify_command, once_cmd. destruct (i_signed i && i_fka i); cbn [r_disc r_backend]; [discriminate|].
+  intros _. apply rebuilt_cmd.
+Qed.
+
+Lemma forward_once i ran : r_disc (forward_command i ran) = false -> once_cmd i (forward_command i ran).
+Proof.
+  unfold forward_command. destruct (beq_bytes (i_cmd i) (i_line i)) eqn:E; [|apply modify_once].
+  apply beq_bytes_eq in E. unfold once_cmd. rewrite E. destruct (i_fam i); reflexivity.
+Qed.
+
+Lemma keyed_unknown_once i ran :
+  r_disc (keyed_rewrite_unknown_branch i ran) = false -> once_cmd i (keyed_rewrite_unknown_branch i ran).
+Proof.
+  unfold keyed_rewrite_unknown_branch, once_cmd. destruct (strict_key i && i_fka i); cbn [r_disc r_backend]; [discriminate|].
+  intros _. apply rebuilt_cmd.
+Qed.
+
+Lemma keyed_forward_once fixed i ran :
+  (fixed = true \/ (strict_key i && negb (i_fka i)) = false) ->
+  r_disc (keyed_rewrite_forward_branch fixed i ran) = false -> once_cmd i (keyed_rewrite_forward_branch fixed i ran).
+Proof.
+  unfold keyed_rewrite_forward_branch, once_cmd. intros Hfx.
+  destruct (strict_key i); [|intros _; apply rebuilt_cmd].
+  destruct (i_fka i); cbn [r_disc r_backend]; [discriminate|].
+  destruct fixed; [intros _; apply rebuilt_cmd|]. destruct Hfx; discriminate.
+Qed.
+
 Definition exactly_once_text (i : input) (r : result) : Prop :=
   exists c, cmd_packets (r_backend r) = [c] /\
     (c = i_cmd i \/ (c = i_line i /\ i_fam i = Legacy /\ i_forward i = false)).
+
+Lemma once_cmd_text i r : once_cmd i r -> exactly_once_text i r.
+Proof. intros H. exists (i_cmd i). split; [exact H|now left]. Qed.
 
 Lemma exactly_once_gen fixed i :
   (fixed = true \/ trigger1 i = false) ->
@@ -205,23 +309,36 @@ Lemma exactly_once_gen fixed i :
   exactly_once_text i (decide fixed i).
 Proof.
   intros Hfx Hd Hk. unfold kept_by_proxy in Hk. rewrite Hd in Hk. cbn [negb andb] in Hk.
-  unfold exactly_once_text, trigger1 in *. revert Hfx Hk. crush_decide. rewrite Hd.
-  destruct (i_fam i) eqn:Efam, (i_forward i) eqn:Efw; cbn [negb andb];
-    try (destruct (dispatch (i_roots i) (i_cmd i)) as [o ran]; cbn [fst]; destruct o; cbn [proxy_handles]);
-    intros Hfx Hk; try discriminate;
-    repeat match goal with
-    | |- context [beq_bytes (i_cmd i) (i_line i)] =>
-        let E := fresh "Eb" in destruct (beq_bytes (i_cmd i) (i_line i)) eqn:E;
-        [apply beq_bytes_eq in E|]; cbn [andb negb]
-    | H : context [beq_bytes (i_cmd i) (i_line i)] |- _ =>
-        let E := fresh "Eb" in destruct (beq_bytes (i_cmd i) (i_line i)) eqn:E;
-        [apply beq_bytes_eq in E|]; cbn [andb negb] in H
-    end;
-    destruct (i_signed i), (i_fka i), (i_keyrev i =? 2), (i_p1205 i), fixed; cbn;
-    intros Hdisc; try discriminate;
-    try (destruct Hfx; discriminate);
-    try (eexists; split; [reflexivity|]; auto; fail);
-    try (eexists; split; [reflexivity|]; left; congruence).
+  unfold decide. destruct (i_fam i) eqn:Efam.
+  - (* legacy *)
+    unfold decide_legacy. rewrite Hd. destruct (i_forward i) eqn:Efw.
+    + intros _. apply once_cmd_text. reflexivity.
+    + cbn [negb andb] in Hk. destruct (dispatch (i_roots i) (i_cmd i)) as [o ran]. cbn [fst] in Hk.
+      rewrite Hk. intros _. exists (i_line i). split; [reflexivity|]. right. auto.
+  - (* keyed *)
+    unfold decide_keyed. rewrite Hd. destruct (i_forward i) eqn:Efw.
+    + destruct (i_signed i && beq_bytes (i_cmd i) (i_line i)) eqn:Esb.
+      * intros _. apply once_cmd_text. apply andb_true_iff in Esb. destruct Esb as [_ Eb].
+        apply beq_bytes_eq in Eb. unfold once_cmd. now rewrite Eb.
+      * intros Hdisc. apply once_cmd_text. apply keyed_forward_once; [|exact Hdisc].
+        destruct Hfx as [->|Ht]; [now left|right].
+        unfold trigger1 in Ht. rewrite Efam, Hd, Efw in Ht. cbn [negb andb] in Ht.
+        unfold strict_key in *. destruct (i_signed i); [|reflexivity]. cbn [andb] in *.
+        rewrite Esb in Ht. cbn [negb] in Ht. now rewrite andb_true_r in Ht.
+    + cbn [negb andb] in Hk. destruct (dispatch (i_roots i) (i_cmd i)) as [o ran]. cbn [fst] in Hk.
+      rewrite Hk. destruct (beq_bytes (i_cmd i) (i_line i)) eqn:Eb.
+      * intros _. apply once_cmd_text. apply beq_bytes_eq in Eb. unfold once_cmd. now rewrite Eb.
+      * intros Hdisc. apply once_cmd_text. now apply keyed_unknown_once.
+  - (* session *)
+    unfold decide_session. rewrite Hd. destruct (i_forward i) eqn:Efw.
+    + intros Hdisc. apply once_cmd_text. now apply forward_once.
+    + cbn [negb andb] in Hk. destruct (dispatch (i_roots i) (i_cmd i)) as [o ran]. cbn [fst] in Hk.
+      destruct o; cbn in Hk; try discriminate; intros Hdisc; apply once_cmd_text; now apply forward_once.
+  - (* unsigned *)
+    unfold decide_session. rewrite Hd. destruct (i_forward i) eqn:Efw.
+    + intros Hdisc. apply once_cmd_text. now apply forward_once.
+    + cbn [negb andb] in Hk. destruct (dispatch (i_roots i) (i_cmd i)) as [o ran]. cbn [fst] in Hk.
+      destruct o; cbn in Hk; try discriminate; intros Hdisc; apply once_cmd_text; now apply forward_once.
 Qed.
 
 (* the repaired model satisfies the whole property predicate *)
@@ -243,25 +360,18 @@ Proof.
     + now rewrite kept_not_forwarded.
     + destruct (r_disc (decide true i)) eqn:Hdisc.
       * destruct (disc_only_signed_fka _ _ Hdisc) as [-> ->]. cbn [andb].
-        (* disconnected: nothing was forwarded *)
-        revert Hdisc. unfold kept_by_proxy in Hk. rewrite Hd in Hk. cbn [negb andb] in Hk. revert Hk.
-        crush_decide. rewrite Hd.
-        destruct (i_fam i), (i_forward i); cbn [negb andb];
-          try (destruct (dispatch (i_roots i) (i_cmd i)) as [o ran]; cbn [fst]; destruct o; cbn [proxy_handles]);
-          intros Hk; try discriminate;
-          repeat match goal with |- context [if ?b then _ else _] => destruct b; cbn end;
-          intros; try discriminate; reflexivity.
+        now rewrite (disc_nothing true i Hdisc).
       * destruct (exactly_once_gen true i (or_introl eq_refl) Hd Hk Hdisc) as [c [-> Hc]].
         destruct Hc as [->|[-> _]]; rewrite beq_bytes_refl; [reflexivity|apply orb_true_r].
 Qed.
 
 Lemma impl_eq_spec_off_trigger_lemma i : trigger1 i = false -> impl_decide i = spec_decide i.
 Proof.
-  unfold trigger1, impl_decide, spec_decide. crush_decide.
-  destruct (i_fam i); try reflexivity.
-  destruct (i_denied i); [reflexivity|].
-  destruct (i_forward i); [|reflexivity]. cbn [negb andb].
-  destruct (i_signed i), (i_keyrev i =? 2), (i_fka i), (beq_bytes (i_cmd i) (i_line i)); cbn; intros; try discriminate; reflexivity.
+  unfold trigger1, impl_decide, spec_decide, decide. destruct (i_fam i) eqn:Efam; try reflexivity.
+  unfold decide_keyed. destruct (i_denied i); [reflexivity|]. destruct (i_forward i); [|reflexivity].
+  cbn [negb andb]. unfold keyed_rewrite_forward_branch, strict_key.
+  destruct (i_signed i), (i_keyrev i =? 2), (i_fka i), (beq_bytes (i_cmd i) (i_line i)); cbn;
+    intros; try discriminate; reflexivity.
 Qed.
 
 (* witness for the recorded finding: "/hub" rewritten to "/lobby" and forwarded *)
